@@ -7,9 +7,10 @@ import (
 	"bytes"
 	"encoding/json"
 	"fmt"
-	"io"
+	"math"
 	"os"
 	"strings"
+	"time"
 
 	"verif/clientx"
 	"verif/ev"
@@ -31,54 +32,6 @@ type Case struct {
 	EOFs    int      `json:"eof_budget"`
 	Choices []int    `json:"choices"`
 }
-
-// frag is the fragmentation policy: at every read the environment either delivers everything that is left (default)
-// or deviates: delivers only the next k bytes, answers with an empty timed-out read, or adds io.EOF to the last chunk.
-type frag struct {
-	c    *explore.Ctx
-	kind clientx.Kind
-}
-
-func (p *frag) Read(t *clientx.Transport, bufLen int) clientx.ReadAnswer {
-	r := t.Remaining()
-	if r == 0 {
-		// the complete reply has been delivered and the client still reads: the line stays silent
-		if p.kind.IsSerial() {
-			return clientx.ReadAnswer{Timeout: true, Label: "silent"}
-		}
-		return clientx.ReadAnswer{Timeout: true, Err: clientx.TimeoutErr(), Label: "silent"}
-	}
-	all := r
-	if all > bufLen {
-		all = bufLen
-	}
-	alts := []clientx.ReadAnswer{{N: all, Label: "all"}}
-	if p.c.Left("cut") > 0 {
-		for k := 1; k < r && k < bufLen; k++ {
-			alts = append(alts, clientx.ReadAnswer{N: k, Label: "cut"})
-		}
-	}
-	if p.c.Left("empty") > 0 {
-		if p.kind.IsSerial() {
-			alts = append(alts, clientx.ReadAnswer{Timeout: true, Label: "empty"}, // 0, nil after the port's own timeout
-				clientx.ReadAnswer{Timeout: true, Err: os.ErrDeadlineExceeded, Label: "empty"},
-				clientx.ReadAnswer{Timeout: true, Err: io.EOF, Label: "empty"})
-		} else {
-			alts = append(alts, clientx.ReadAnswer{Timeout: true, Err: clientx.TimeoutErr(), Label: "empty"})
-		}
-	}
-	if !p.kind.IsSerial() && p.c.Left("eof") > 0 && r <= bufLen {
-		alts = append(alts, clientx.ReadAnswer{N: r, Err: io.EOF, Label: "eof"})
-	}
-	i := p.c.Choose(len(alts), "read")
-	a := alts[i]
-	if a.Label != "all" {
-		p.c.Spend(a.Label)
-	}
-	return a
-}
-func (p *frag) Write(t *clientx.Transport, data []byte) error { return nil }
-func (p *frag) SetWriteDeadline(t *clientx.Transport) error   { return nil }
 
 type counters struct {
 	execs, points, nontrivial int64
@@ -209,7 +162,7 @@ func exploreScenario(sc clientx.Sc, base Case, res *ev.Result, cnt *counters) {
 			c.SetBudget("cut", base.Cuts)
 			c.SetBudget("empty", base.Empties)
 			c.SetBudget("eof", base.EOFs)
-			run := clientx.Execute(sc.Scenario, sc.Q, &frag{c: c, kind: sc.Kind}, clientx.Options{})
+			run := clientx.Execute(sc.Scenario, sc.Q, &clientx.Frag{C: c, Kind: sc.Kind}, clientx.Options{ReadTimeout: 5 * time.Millisecond})
 			cs := base
 			cs.Choices = c.Choices()
 			before := len(res.Violations)
@@ -222,7 +175,7 @@ func exploreScenario(sc clientx.Sc, base Case, res *ev.Result, cnt *counters) {
 						c.SetBudget("cut", base.Cuts)
 						c.SetBudget("empty", base.Empties)
 						c.SetBudget("eof", base.EOFs)
-						r2 := clientx.Execute(sc.Scenario, sc.Q, &frag{c: c, kind: sc.Kind}, clientx.Options{})
+						r2 := clientx.Execute(sc.Scenario, sc.Q, &clientx.Frag{C: c, Kind: sc.Kind}, clientx.Options{ReadTimeout: 5 * time.Millisecond})
 						if r2.Observation() != o1 {
 							panic(explore.ReplayError{Msg: "explore: replay of a violating execution gave different observations"})
 						}
@@ -278,8 +231,26 @@ func run(tier string, shard, nsh int, res *ev.Result) {
 	thorough := tier == "thorough"
 	scs := allScenarios(true)
 	cnt := &counters{states: map[string]struct{}{}}
+	costs := make([]float64, len(scs))
 	for i, sc := range scs {
-		if i%nsh != shard {
+		n := float64(len(sc.Reply))
+		switch {
+		case n <= 13:
+			costs[i] = math.Pow(2, n-1) * n * 3
+		case thorough && n <= 120:
+			costs[i] = n * n * n / 2
+		default:
+			costs[i] = n * n * 3
+		}
+	}
+	for i, sc := range scs {
+		if sc.Req.FC == 23 && !sc.Exc { // every execution runs into the read timeout (known finding C07-F2): ~10x more reads
+			costs[i] *= 8
+		}
+	}
+	asg := ev.Assign(costs, nsh)
+	for i, sc := range scs {
+		if asg[i] != shard {
 			continue
 		}
 		n := len(sc.Reply)
@@ -342,7 +313,7 @@ func replay(check string, raw json.RawMessage, res *ev.Result) {
 		x.SetBudget("cut", c.Cuts)
 		x.SetBudget("empty", c.Empties)
 		x.SetBudget("eof", c.EOFs)
-		run := clientx.Execute(sc.Scenario, sc.Q, &frag{c: x, kind: sc.Kind}, clientx.Options{})
+		run := clientx.Execute(sc.Scenario, sc.Q, &clientx.Frag{C: x, Kind: sc.Kind}, clientx.Options{ReadTimeout: 5 * time.Millisecond})
 		judge(sc, run, c, res)
 	}, c.Choices)
 }
@@ -352,7 +323,7 @@ func main() {
 		Property: prop, Level: "model_checking",
 		Rule: "stateless DFS over the transport's answers on the real client code (virtual time): default answer = deliver everything left; deviations = deliver only the next k bytes (every k), an empty timed-out read, EOF on the last chunk. " +
 			"Every execution is compared with the reference outcome (the reply, parsed, or the typed exception).",
-		Assumptions: []string{"time is virtual: ReadTimeout 50 ms, far above what any explored script consumes (<= 1 empty read)", "reply payloads come from the reference device's hash image",
+		Assumptions: []string{"time is virtual: ReadTimeout 5 ms, far above what any explored script consumes (<= 1 empty read)", "reply payloads come from the reference device's hash image",
 			"more than 2 cuts on replies longer than 13 bytes are not explored"},
 		Run: run, Replay: replay,
 		Shards: func(tier string) int { return 16 },
